@@ -77,6 +77,13 @@ let replay ~maxt ~program (lines : line list) : string option =
             if (gett !st u).t_blocked = None then
               err := Some (Printf.sprintf "step %d: the signal woke thread %d, which is not blocked in the model (hypothesis sched_wf of T13 does not hold on this trace)" k (int_of_nat u))
           | _ -> ());
+         (* hypothesis sched_fair of T13d_fair (no hang): a signal wakes a thread blocked on THAT condition variable whenever
+            there is one - pthread_cond_signal's guarantee, which the schedule shim must honour (extracted wake_fairb,
+            proved sound in proofs/PoolFairEx.v) *)
+         if !err = None && op = "signal" && not (wake_fairb !st (nat_of_int t) wake) then
+           err := Some (Printf.sprintf "step %d: the signal of thread %d %s although the model has %s (hypothesis sched_fair of T13d_fair does not hold on this trace)" k t
+                          (match wake with Some u -> Printf.sprintf "woke thread %d" (int_of_nat u) | None -> "woke nobody")
+                          (match wake with Some _ -> "that thread waiting on another condition" | None -> "a waiter on that condition"));
          (* (no check of sched_causal here: like the model, the schedule shim makes a created thread runnable as soon as its
             creator has reached pthread_create, so traces in which it starts before the creator's create step are explored
             on purpose - they stand for the new thread running before pthread_create returns; the theorem for ALL
